@@ -32,7 +32,9 @@ How the model reads the tables:
   `--dry`/`--status` ⇒ `true`.  `ToEditorOutput` passes the constant `true`
   (`Cfg.fixed.listDry`; the tree as found passed `e.Dry`, i.e. `false` for a plain
   `--list --json`).  `compiledTask` only calls `Value` (no write).
-* `guards`: `IsTaskUpToDate` is skipped under `skipFingerprinting` (`--force`); the prompt
+* `guards`: `IsTaskUpToDate` is skipped under `skipFingerprinting` (`--force`) — and exactly then (F8F)
+  `e.recordFingerprint` runs: the sources checker's `IsUpToDate` for what it records, never when dry
+  and only for a task with sources (`invoke … .force` starts the body from `(isUpToDate …).1`); the prompt
   is skipped when dry; `mkdir` is skipped when dry (`Cfg.fixed.dryMkdir = false`; unguarded in
   the tree as found); `execext.RunCommand` is unreachable when dry, but a `task:` command is
   followed (`runCommand:e.RunTask` has no dry guard) and the callee's preconditions are evaluated
@@ -83,6 +85,7 @@ theorem dryWiring_calls_ok : DryWiring.calls = [("Executor.RunTask:fingerprint.W
   ("Executor.ToEditorOutput:fingerprint.WithDry", "true"),
   ("Executor.compiledTask:fingerprint.NewChecksumChecker", "e.Dry"),
   ("Executor.compiledTask:fingerprint.NewTimestampChecker", "e.Dry"),
+  ("Executor.recordFingerprint:fingerprint.NewSourcesChecker", "e.Dry"),
   ("Executor.statusOnError:fingerprint.NewSourcesChecker", "e.Dry"),
   ("IsTaskUpToDate:NewSourcesChecker", "‹0›.dry"),
   ("NewSourcesChecker:NewChecksumChecker", "dry"),
@@ -100,6 +103,7 @@ platform and call-count checks, deferred commands — belong to other domains an
 def fingerGuardKeys : List String :=
   ["Executor.RunTask:fingerprint.IsTaskUpToDate", "Executor.RunTask:e.Logger.Prompt", "Executor.RunTask:e.mkdir",
    "Executor.RunTask:e.runCommand", "Executor.RunTask:e.statusOnError", "Executor.RunTask:e.areTaskPreconditionsMet",
+   "Executor.RunTask:e.recordFingerprint", "Executor.recordFingerprint:(fingerprint.NewSourcesChecker).IsUpToDate",
    "Executor.runCommand:e.RunTask", "Executor.runCommand:execext.RunCommand",
    "Executor.Status:fingerprint.IsTaskUpToDate", "Executor.statusOnError:(fingerprint.NewSourcesChecker).OnError",
    "Executor.ToEditorOutput:fingerprint.IsTaskUpToDate", "Executor.ListTasks:e.ToEditorOutput",
@@ -110,6 +114,7 @@ theorem dryWiring_guards_ok :
     DryWiring.guards.filter (fun g => fingerGuardKeys.contains g.1) =
       [("Executor.RunTask:e.areTaskPreconditionsMet", ""),
        ("Executor.RunTask:fingerprint.IsTaskUpToDate", "!((!call.Indirect && e.Force) || e.ForceAll)"),
+       ("Executor.RunTask:e.recordFingerprint", "!(!((!call.Indirect && e.Force) || e.ForceAll))"),
        ("Executor.RunTask:e.Logger.Prompt", "range ‹0›.Prompt && !e.Dry && ‹1› != \"\""),
        ("Executor.RunTask:e.statusOnError", "range ‹0›.Prompt && !e.Dry && ‹1› != \"\""),
        ("Executor.RunTask:e.mkdir", "!e.Dry"),
@@ -119,6 +124,7 @@ theorem dryWiring_guards_ok :
        ("Executor.runCommand:execext.RunCommand", "case t.Cmds[i].Cmd != \"\" && !(!shouldRunOnCurrentPlatform(t.Cmds[i].Platforms)) && !(e.Dry)"),
        ("Executor.Status:fingerprint.IsTaskUpToDate", "range calls"),
        ("Executor.statusOnError:(fingerprint.NewSourcesChecker).OnError", "!(e.Dry)"),
+       ("Executor.recordFingerprint:(fingerprint.NewSourcesChecker).IsUpToDate", "!(e.Dry || len(t.Sources) == 0)"),
        ("Executor.ToEditorOutput:fingerprint.IsTaskUpToDate", "!(noStatus)"),
        ("Executor.ListTasks:e.ToEditorOutput", "o.FormatTaskListAsJSON"),
        ("Executor.Run:summary.PrintTask", "e.Summary && range calls"),
